@@ -202,10 +202,12 @@ def _after_watchdog(thunk, ctx, seconds, budget):
 
 
 def engine_limits(n):
-    """(watchdog seconds, line budget) for a layout of n labels: measured worst legitimate case (200 mutually
-    overlapping labels squeezed into 72 layers) is 27 s / 4.1e8 lines, i.e. about 50 n^3 lines"""
+    """(watchdog seconds, line budget) for a layout of n labels.  Measured worst legitimate cases: 200 mutually
+    overlapping labels in 72 layers: 27 s / 4.1e8 lines; 120 labels at one position in 60 layers (through a timeline):
+    46 s / 1.08e9 lines, i.e. up to ~630 n^3 lines.  The watchdog leaves a factor ~5 for a loaded machine, the budget
+    a factor ~3 on top of the worst measured case."""
     n = max(1, min(n, 250))
-    return WATCHDOG_S + n ** 3 / 5e4, int(2e8 + 500 * n ** 3)
+    return 2 * WATCHDOG_S + n ** 3 / 1e4, int(3e8 + 2000 * n ** 3)
 
 
 # --------------------------------------------------------------------------
